@@ -211,7 +211,7 @@ func c13RunPass(c *ctx, p c13Pass, dir string, merge func(p c13Pass, st *c13Chil
 			culprit = append([]string{"(the crash did not repeat when the runs in flight were run again one by one: schedule dependent)"}, culprit...)
 		}
 	}
-	if strings.Contains(out+head, "send on closed channel") && strings.Contains(out+head, "flushHandshakeBuffer") {
+	if strings.Contains(string(out)+head, "send on closed channel") && strings.Contains(string(out)+head, "flushHandshakeBuffer") {
 		// the reader of a side that reached EOF has closed its channel (deferred close in wrapInput /
 		// wrapOutput) while the handshake worker still flushes the parked chunks into it: a known
 		// finding of its own (the session is ending: the harness closes the streams at the end of a run)
